@@ -317,6 +317,25 @@ class NPShim:
             raise Unsupported("np.median on symbolic data")
         return real_np.median(x, *a, **k)
 
+    def sort(self, x, *a, **k):
+        """ascending sort of a 1-D array; symbolic cells go through a compare-exchange network (no forking)"""
+        if not isinstance(x, A):
+            return real_np.sort(x, *a, **k)
+        if x.ndim != 1:
+            raise Unsupported("np.sort on 2-D")
+        cells = list(x.cells)
+        if not any(is_sym(c) or isinstance(c, SF) for c in cells):
+            return A(sorted(cells), x.dtype)
+        if x.kind == "f":
+            raise Unsupported("np.sort of symbolic floats (NaN ordering)")
+        n = len(cells)
+        for i in _builtin_range(n):
+            for j in _builtin_range(n - 1 - i):
+                a_, b_ = cells[j], cells[j + 1]
+                sw = b_ < a_
+                cells[j], cells[j + 1] = ite(sw, b_, a_), ite(sw, a_, b_)
+        return A(cells, x.dtype)
+
     def argsort(self, x, *a, **k):
         if isinstance(x, A):
             return x.argsort()
